@@ -20,12 +20,26 @@ ROCKPOOL = ('dfalt', 'rock1', 'rock2', 'ROCK3', 'gran4', 'sand5')
 LET = 'abcdefghijklmnopqrstuvwxyz'
 
 
+def canon_name(name):
+    """The form a block name has after one write/read cycle (the simulator's (a3,i2) quirk):
+    the harness's own statement of unfix-then-fix."""
+    w = name
+    if name[3:5].isdigit():
+        w = '%3s%2d' % (name[0:3], int(name[3:5]))
+    if w[2].isdigit() and w[4].isdigit() and w[3] == ' ':
+        w = w[:3] + '0' + w[4]
+    return w
+
+
 def pool_name(k):
     """k-th name of a pool that cannot collide with geometry or MINC names.  One name in four
     differs from another pool name only in its first character (q/r/s...), which is what the
     default MINC matrix-block naming overwrites."""
     k %= 26 * 26 * 90
     first = 'qrst'[(k // 7) % 4] if k % 4 == 0 else 'q'
+    if k % 9 == 5:
+        # a zero-padded number after a letter: written with a blank by the (a3,i2) quirk
+        return first + LET[(k // 90) % 26] + LET[(k // (90 * 26)) % 26] + '0%d' % (k % 10)
     return first + LET[(k // 90) % 26] + LET[(k // (90 * 26)) % 26] + '%2d' % (10 + k % 90)
 
 
@@ -417,6 +431,12 @@ class GridMachineBase(Machine):
             return False
         con = g.connectionlist[ch[0] % len(g.connectionlist)]
         key = tuple(b.name for b in con.block)
+        if ch[1] % 6 == 5 and key[::-1] not in g.connection:
+            # a connection is found under the pair of names in the order it is listed; the
+            # reversed pair names no connection of the grid: nothing may change
+            self.call(lambda: g.delete_connection(key[::-1]), 'delete_connection(reversed pair)')
+            self.ctx.probes['delete_connection_reversed_pair'] += 1
+            return 'noop'
         self.call(lambda: g.delete_connection(key), 'delete_connection')
         del self.model.c[frozenset(key)]
         self.geo_valid = False
@@ -448,6 +468,17 @@ class GridMachineBase(Machine):
         if not g.rocktypelist:
             return False
         old = g.rocktypelist[ch[0] % len(g.rocktypelist)].name
+        if ch[2] % 5 == 4 and len(g.rocktypelist) >= 2:
+            # renaming onto a name already in use, or a name that does not exist, is refused with
+            # an exception: the grid must be left as it was
+            other = g.rocktypelist[(ch[0] + 1) % len(g.rocktypelist)].name
+            a, b = (old, other) if ch[2] % 2 else ('nosuc', 'xxxxx')
+            try:
+                g.rename_rocktype(a, b)
+            except Exception:
+                self.ctx.probes['rename_rocktype_refused'] += 1
+                return 'refused'
+            raise Violation('I5', 'rename_rocktype(%r, %r) was not refused' % (a, b))
         new = self.fresh_rock_name(ch[1])
         if new is None:
             return False
@@ -748,6 +779,9 @@ class GridMachineBase(Machine):
             return False
         if any(len(rt.name) != 5 for rt in g.rocktypelist):
             return False
+        cn = [canon_name(b.name) for b in g.blocklist]
+        if len(set(cn)) != len(cn):
+            return False        # two names that the file format cannot tell apart
         # volumes / distances must fit their 10-column fields (C02's subject otherwise)
         dat = self.td.t2data()
         dat.title = 'persist'
@@ -772,6 +806,21 @@ class GridMachineBase(Machine):
                                         ('ascii' if mesh else 'infile'))] += 1
         self.grid = dat2.grid
         self.geo_valid = False
+        # names come back in the form one write/read cycle gives them
+        mp = {} if self.persist_binary else \
+            dict((n, canon_name(n)) for n in self.model.b if canon_name(n) != n)
+        if mp:
+            ctx.probes['persist_names_canonicalised'] += 1
+            m = self.model
+            m.b = dict((mp.get(nm, nm), v) for nm, v in m.b.items())
+            newc = {}
+            for v in m.c.values():
+                v = dict(v)
+                v['first'], v['second'] = mp.get(v['first'], v['first']), \
+                    mp.get(v['second'], v['second'])
+                v['dist'] = dict((mp.get(nm, nm), d) for nm, d in v['dist'].items())
+                newc[frozenset((v['first'], v['second']))] = v
+            m.c = newc
         if self.persist_binary:
             # the binary files hold 0.0 where a connection has no gravity cosine
             for v in self.model.c.values():
